@@ -34,8 +34,9 @@ TRUSTED_BASE = [
 def sh(cmd, timeout, cwd=None, mem_gb=12, stdout_path=None):
     """Run cmd; returns (rc, stdout, stderr, seconds). rc=-9 on timeout."""
     def lim():
-        b = mem_gb * (1 << 30)
-        resource.setrlimit(resource.RLIMIT_AS, (b, b))
+        if mem_gb:
+            b = mem_gb * (1 << 30)
+            resource.setrlimit(resource.RLIMIT_AS, (b, b))
     t0 = time.time()
     out_f = open(stdout_path, "w") if stdout_path else subprocess.PIPE
     try:
@@ -382,7 +383,7 @@ def build_native(driver_c, outdir):
 
     def cc(s):
         o = os.path.join(outdir, s.replace(".c", ".o"))
-        rc, so, se, dt = sh(["gcc", "-O0", "-g", "-w", "-c", "-I" + os.path.join(REPO, "src"), "-I" + SRC, "-DHAVE_CONFIG_H",
+        rc, so, se, dt = sh(["gcc", "-O0", "-g", "-w", "-fsanitize=address", "-fno-omit-frame-pointer", "-c", "-I" + os.path.join(REPO, "src"), "-I" + SRC, "-DHAVE_CONFIG_H",
                              os.path.join(SRC, s), "-o", o], 300)
         if rc != 0:
             raise MachineryError("native compile of %s failed: %s" % (s, se[-500:]))
@@ -390,7 +391,7 @@ def build_native(driver_c, outdir):
     with ThreadPoolExecutor(NCPU) as ex:
         objs = list(ex.map(cc, srcs))
     exe = os.path.join(outdir, "replay.exe")
-    rc, so, se, dt = sh(["gcc", "-O0", "-g", "-w", "-I" + os.path.join(REPO, "src"), "-I" + SRC, "-I" + VERIF, "-DHAVE_CONFIG_H",
+    rc, so, se, dt = sh(["gcc", "-O0", "-g", "-w", "-fsanitize=address", "-fno-omit-frame-pointer", "-I" + os.path.join(REPO, "src"), "-I" + SRC, "-I" + VERIF, "-DHAVE_CONFIG_H",
                          '-DREPO_SRC="%s"' % SRC, "-DNATIVE_REPLAY=1", driver_c] + objs + ["-lcurl", "-lcrypto", "-lm", "-o", exe], 300)
     if rc != 0:
         raise MachineryError("native link of replay driver failed: %s" % se[-1500:])
@@ -409,7 +410,8 @@ def native_replay(replay_file):
         args = [exe]
         for k, v in sorted(rp.get("inputs", {}).items()):
             args.append("%s=%s" % (k, v))
-        rc, so, se, dt = sh(args, 600, cwd=outdir)
+        os.environ["ASAN_OPTIONS"] = "detect_leaks=0:exitcode=1:abort_on_error=0"
+        rc, so, se, dt = sh(args, 600, cwd=outdir, mem_gb=0)   # ASan needs a huge address space
         txt = (so + se)[-3000:]
         if rc == 1:
             return "reproduced", txt
